@@ -54,7 +54,14 @@ func init() {
 		if len(a) > 4 {
 			o = a[4]
 		}
-		return thriftDecode(thriftProto(a[0]), a[1] == "1", parseTy(a[2]), unhx(a[3])), o, ""
+		in := unhx(a[3])
+		i := thriftDecode(thriftProto(a[0]), a[1] == "1", parseTy(a[2]), in)
+		if o == "-" && i == "err:eof" && len(in) > 0 {
+			// the property's own rule: plain io.EOF is the answer for EMPTY input only; input that ends inside a value is an
+			// unexpected EOF
+			o = "err:unexpectedEof"
+		}
+		return i, o, ""
 	}
 	// reuse: an Encoder/Decoder that served another protocol before, then Reset, behaves like a fresh one
 	ops["thrift.reset"] = func(a []string) (string, string, string) {
